@@ -1,7 +1,13 @@
 -- Root of the library (written by tools/mk_manifest.py): the property theorems of every claimed check.
 import AioslskVerif.Props.C01
+import AioslskVerif.Props.C02
+import AioslskVerif.Props.C03
+import AioslskVerif.Props.C07
 import AioslskVerif.Props.C09
 import AioslskVerif.Props.C12
 import AioslskVerif.Props.C13
+import AioslskVerif.Props.C15
 import AioslskVerif.Props.C17
+import AioslskVerif.Props.C18
+import AioslskVerif.Props.C19
 import AioslskVerif.Props.C20
